@@ -725,11 +725,11 @@ def replay_fll_roundtrip(fl, FA, vals=None, seed=0, budget=200, skip_classes=(),
 
 
 # ------------------------------------------------------------------------------------------------------------------ C15
-def _rebuild(fl, code, encapsulated):
+def _rebuild(fl, code, encapsulated, pre_import=True):
     """fresh namespace: the library's import statement, then the exported code; returns the object the code builds"""
     import re
     ns = {}
-    exec(fl.representation.import_statement(), ns)
+    exec(fl.representation.import_statement() if pre_import else "", ns)
     if not encapsulated:
         return eval(code, ns)
     exec(code, ns)
@@ -785,6 +785,12 @@ def py_check(fl, e, alias, form, d=3, ref=None, rows=None, wanted=None, note=Non
                 sub = ":class-shadows"  # the generated class takes the name of a library class imported by `from fuzzylite import *`
             J.bad(f"py-exec-error:{type(ex).__name__}{sub}", "the import statement followed by the exported code builds the engine", f"{type(ex).__name__}: {ex}" + (f" in {m.group(0)!r}" if sub else ""))
             return J.hit
+        if form != "repr" and form[1]:  # extra (not in the statement, own class): the encapsulated code starts with the import statement it needs
+            try:
+                _rebuild(fl, code, True, pre_import=False)
+            except Exception as ex:  # noqa
+                if J.bad(f"py-exec-error:{type(ex).__name__}:self-contained", "the encapsulated code runs in an empty namespace", f"{type(ex).__name__}: {ex}"):
+                    return J.hit
         ok, r2 = J.lib("repr(rebuilt)", repr, e2)
         if ok and r2 != r0 and J.bad("py-repr", *_str_diff(r0, r2)):
             return J.hit
